@@ -264,38 +264,76 @@ def _numpy_conversions(index, ctx):
         if fi.parent is not None:
             continue
         fn = fi.node
+        params = {a.arg for a in fn.args.args + fn.args.kwonlyargs} | ({fn.args.vararg.arg} if fn.args.vararg else set())
         assigns: dict = {}
+        nograd_ids = set()
+        for w in ast.walk(fn):
+            if isinstance(w, ast.With) and any("no_grad" in ast.unparse(it.context_expr) for it in w.items):
+                nograd_ids |= {id(x) for b_ in w.body for x in ast.walk(b_)}
         for a in ast.walk(fn):
-            if isinstance(a, ast.Assign) and len(a.targets) == 1 and isinstance(a.targets[0], ast.Name):
-                assigns.setdefault(a.targets[0].id, []).append(a.value)
-            elif isinstance(a, (ast.AugAssign, ast.AnnAssign, ast.For, ast.NamedExpr, ast.With)):
+            if isinstance(a, ast.Assign) and len(a.targets) == 1:
+                for t in ast.walk(a.targets[0]):
+                    if isinstance(t, ast.Name) and isinstance(t.ctx, ast.Store):
+                        assigns.setdefault(t.id, []).append((a.value, id(a) in nograd_ids))
+            elif isinstance(a, (ast.AugAssign, ast.AnnAssign, ast.For, ast.NamedExpr, ast.With, ast.comprehension)):
                 for t in ast.walk(a.target if hasattr(a, "target") else a):
                     if isinstance(t, ast.Name) and isinstance(t.ctx, ast.Store):
-                        assigns.setdefault(t.id, []).append(None)
+                        assigns.setdefault(t.id, []).append((None, False))
+        PASS = ("cpu", "to", "contiguous", "double", "float", "clone", "reshape", "view", "flatten", "squeeze", "unsqueeze", "type", "t", "sqrt", "diag", "abs", "sum", "mean", "norm")
+        CREATE = ("zeros", "ones", "eye", "full", "arange", "tensor", "as_tensor", "from_numpy", "linspace", "empty", "rand", "randn", "zeros_like", "ones_like", "full_like", "empty_like")
+
+        def combine(parts):
+            rs = [detached(x_, d_) for x_, d_ in parts]
+            if any(r is False for r in rs):
+                return False
+            return True if all(r is True for r in rs) else None
 
         def detached(e, depth=0):
-            """True / False / None (not traced)."""
-            while True:
-                if isinstance(e, ast.Call) and isinstance(e.func, ast.Attribute):
-                    if e.func.attr == "detach":
-                        return True
-                    if e.func.attr in ("cpu", "to", "contiguous", "double", "float", "clone", "reshape", "view", "flatten", "squeeze", "unsqueeze", "type", "T", "t"):
-                        e = e.func.value
-                        continue
-                    return False
-                if isinstance(e, ast.Attribute) and e.attr in ("T", "mT", "data"):
-                    if e.attr == "data":
-                        return True
-                    e = e.value
-                    continue
-                if isinstance(e, ast.Name):
-                    vs = assigns.get(e.id)
-                    if vs is None:
-                        return False  # a parameter (or a global): nothing detached it
-                    if len(vs) == 1 and vs[0] is not None and depth < 4:
-                        return detached(vs[0], depth + 1)
-                    return None
-                return False
+            """True: cannot require grad; False: derives, undetached, from a parameter; None: not traced."""
+            if depth > 8:
+                return None
+            if isinstance(e, ast.Constant):
+                return True
+            if isinstance(e, ast.Call):
+                f = e.func
+                if isinstance(f, ast.Attribute) and f.attr == "detach":
+                    return True
+                if (isinstance(f, ast.Attribute) and f.attr in CREATE and isinstance(f.value, ast.Name) and f.value.id in ("torch", "np", "numpy")) or (isinstance(f, ast.Name) and f.id in CREATE):
+                    return True
+                parts = [(x_, depth + 1) for x_ in list(e.args) + [k.value for k in e.keywords if k.arg not in ("dtype", "device", "dim", "keepdim", "full_matrices")]]
+                def is_module(v_):
+                    while isinstance(v_, ast.Attribute):
+                        v_ = v_.value
+                    return isinstance(v_, ast.Name) and v_.id in ("torch", "np", "numpy", "math", "F")
+                if isinstance(f, ast.Attribute) and not is_module(f.value):
+                    if isinstance(f.value, ast.Name) and f.value.id == "self":
+                        return None if not parts else (False if combine(parts) is False else None)  # a method of the object: what it returns is not traced, what it is given is
+                    parts.append((f.value, depth + 1))
+                return combine(parts) if parts else None
+            if isinstance(e, ast.Attribute):
+                if e.attr == "data":
+                    return True
+                if isinstance(e.value, ast.Name) and e.value.id == "self":
+                    return None  # a stored attribute (configuration / state): not traced
+                if e.attr in ("shape", "dtype", "device", "ndim"):
+                    return True
+                return detached(e.value, depth + 1)
+            if isinstance(e, ast.Subscript):
+                return detached(e.value, depth + 1)
+            if isinstance(e, ast.BinOp):
+                return combine([(e.left, depth + 1), (e.right, depth + 1)])
+            if isinstance(e, ast.UnaryOp):
+                return detached(e.operand, depth + 1)
+            if isinstance(e, ast.Name):
+                vs = assigns.get(e.id)
+                if vs is None:
+                    return False if e.id in params and e.id not in ("self", "cls") else None
+                if len(vs) == 1 and vs[0][0] is not None:
+                    if vs[0][1] and not isinstance(vs[0][0], ast.Name):
+                        return True  # computed under torch.no_grad()
+                    return detached(vs[0][0], depth + 1)
+                return None
+            return None
 
         for c in ast.walk(fn):
             if isinstance(c, ast.Call) and isinstance(c.func, ast.Attribute) and c.func.attr == "numpy":
